@@ -1,7 +1,7 @@
 From Clip Require Import base.Geom base.FloatModel base.Dist base.Winding model.RectLeaf model.RectLines proofs.RectSpec.
 Require Import ExtrOcamlBasic ExtrOCamlFloats ExtrOCamlInt63.
 Extraction Language OCaml.
-Extraction "m.ml" rect_clip_lines_paths rect_clip_lines_t rect_clip_lines lines_spec lines_inside_fx out_len_fx
+Extraction "m.ml" rect_clip_lines_paths rect_clip_lines_t rect_clip_lines_legacy_t rect_clip_lines lines_spec lines_inside_fx out_len_fx
   get_location get_segment_intersection get_segment_intersect_pt get_intersection get_adjacent_location
   heading_clockwise are_opposites is_clockwise get_edges_for_pt is_heading_clockwise has_horz_overlap
   has_vert_overlap is_collinear start_locs_are_clockwise get_bounds rect_is_empty rect_midpoint rect_contains_rect
